@@ -89,14 +89,22 @@ METHOD_RET = {"step_fit": "Nat", "step_pred": "Nat", "predict": ("list", "Nat"),
 
 NAMESPACE = "Art.Gen.BaseART"
 PROFILES["BaseART"] = dict(SELF_FIELDS=SELF_FIELDS, SELF_TYPES=SELF_TYPES, SELF_TY=SELF_TY, METHOD_RET=METHOD_RET,
-                           TRANSLATED=TRANSLATED, INLINE=INLINE, PURE_INLINE=set(), NESTED={}, NAMESPACE=NAMESPACE, FILE=BASE)
+                           TRANSLATED=TRANSLATED, INLINE=INLINE, PURE_INLINE=set(), NESTED={}, NAMESPACE=NAMESPACE, FILE=BASE,
+                           PARAM_TYPES=PARAM_TYPES, IGNORED_PARAMS=IGNORED_PARAMS, WRITE_ONLY=WRITE_ONLY, HAS_FLAGS={"W": "__hasW"})
 PROFILES["SimpleARTMAP"] = dict(
-    SELF_FIELDS={"module_a": ("self_a", "a"), "map": ("self_map", "map")},
-    SELF_TYPES={"module_a": "Art.Imp.Self Wt P", "map": "dict"},
+    SELF_FIELDS={"module_a": ("self_a", "a"), "map": ("self_map", "map"), "labels_": ("self_labelsB", "labelsB"),
+                 "__hasLabels": ("self_hasLabels", "hasLabels")},
+    SELF_TYPES={"module_a": "Art.Imp.Self Wt P", "map": "dict", "labels_": ("list", "Nat"), "__hasLabels": "Bool"},
     SELF_TY="Art.Imp.SMapSelf Wt P",
-    METHOD_RET={"step_fit": "Nat", "step_pred": ("prod", ["Nat", "Nat"]), "predict": ("list", "Nat")},
-    TRANSLATED=["step_fit", "step_pred", "predict"], INLINE=set(), PURE_INLINE={"match_reset_func"},
-    NESTED={"module_a": "BaseART"}, NAMESPACE="Art.Gen.SimpleARTMAP", FILE=SMAP_FILE)
+    METHOD_RET={"step_fit": "Nat", "step_pred": ("prod", ["Nat", "Nat"]), "predict": ("list", "Nat"), "partial_fit": "Unit",
+                "fit": "Unit"},
+    TRANSLATED=["step_fit", "step_pred", "predict", "partial_fit", "fit"], INLINE=set(), PURE_INLINE={"match_reset_func"},
+    NESTED={"module_a": "BaseART"}, NAMESPACE="Art.Gen.SimpleARTMAP", FILE=SMAP_FILE,
+    PARAM_TYPES=dict(PARAM_TYPES, y=("list", "Nat")), IGNORED_PARAMS=set(), WRITE_ONLY={"classes_"},
+    HAS_FLAGS={"labels_": "__hasLabels"})
+HAS_FLAGS = {"W": "__hasW"}
+NESTED_FIELD = {"W": ("W", ("list", "Wt")), "weight_sample_counter_": ("cnt", ("list", "Nat")), "sample_counter_": ("n", "Nat"),
+                "labels_": ("labels", ("list", "Nat")), "params": ("params", "P")}
 
 
 def lean_ty(t) -> str:
@@ -109,7 +117,8 @@ def lean_ty(t) -> str:
     if t[0] == "opt":
         return f"Option {lean_ty(t[1])}" if isinstance(t[1], str) else f"Option ({lean_ty(t[1])})"
     if t[0] == "enum":
-        return f"List ({lean_ty(t[1])} × Nat)"
+        inner = lean_ty(t[1])
+        return f"List (({inner}) × Nat)" if isinstance(t[1], tuple) and t[1][0] == "prod" else f"List ({inner} × Nat)"
     if t[0] == "prod":
         return " × ".join(lean_ty(x) if isinstance(x, str) or x[0] != "prod" else f"({lean_ty(x)})" for x in t[1])
     raise Unsupported(f"type {t}")
@@ -318,6 +327,9 @@ def ext(e: ast.AST, env: Env):
         return SELF_FIELDS[a][0], env.types[SELF_FIELDS[a][0]]
     if isinstance(e, ast.Attribute) and ast.unparse(e) == "np.nan":
         return "none", ("opt", "α")
+    if isinstance(e, ast.Attribute) and is_self_attr(e.value) in NESTED and e.attr in NESTED_FIELD:
+        fld, fty = NESTED_FIELD[e.attr]
+        return f"{SELF_FIELDS[is_self_attr(e.value)][0]}.{fld}", fty
     if isinstance(e, ast.Subscript) and isinstance(e.value, ast.Attribute) and e.value.attr == "shape" \
             and isinstance(e.slice, ast.Constant) and e.slice.value == 0:
         bt, bty = ext(e.value.value, env)
@@ -413,8 +425,14 @@ def ext(e: ast.AST, env: Env):
                 return "(" + env.names[fn] + " " + " ".join(arg(x, env) for x in order_args(e, names, fn)) + ")", "Bool"
             if fn == "len" and len(e.args) == 1:
                 return f"({ex(e.args[0], env)}).length", "Nat"
-            if fn == "hasattr" and src == "hasattr(self, 'W')":
-                return "self_hasW", "Bool"
+            if fn == "hasattr" and len(e.args) == 2 and ast.unparse(e.args[0]) == "self" and isinstance(e.args[1], ast.Constant) \
+                    and e.args[1].value in HAS_FLAGS:
+                return SELF_FIELDS[HAS_FLAGS[e.args[1].value]][0], "Bool"
+            if fn == "dict" and not e.args and not e.keywords:
+                return "[]", "dict"
+            if fn == "zip" and len(e.args) == 2 and not e.keywords:
+                (a_, aty), (b_, bty) = ext(e.args[0], env), ext(e.args[1], env)
+                return f"(List.zip {a_} {b_})", ("list", ("prod", [elem_ty(aty, "zip"), elem_ty(bty, "zip")]))
             if fn == "enumerate" and len(e.args) == 1 and not e.keywords:
                 it, ity = ext(e.args[0], env)
                 return f"(List.zipIdx ({it}))", ("enum", elem_ty(ity, "enumerate"))
@@ -440,7 +458,7 @@ def ext(e: ast.AST, env: Env):
                 it_, ity_ = ext(e.args[0], env)
                 if ity_ == "Nat":
                     return it_, "Nat"
-        if ast.unparse(e.func) == "np.array" and len(e.args) == 1 and not e.keywords:
+        if ast.unparse(e.func) in ("np.array", "np.copy") and len(e.args) == 1 and not e.keywords:
             return ext(e.args[0], env)
         if ast.unparse(e.func) == "np.zeros" and len(e.args) == 1 and isinstance(e.args[0], ast.Tuple) and len(e.args[0].elts) == 1 \
                 and [ast.unparse(k_) for k_ in e.keywords] == ["dtype=int"]:
@@ -574,6 +592,15 @@ def tr_block(stmts, env: Env, k: K) -> list[str]:
         sc0 = self_call(s.value)
         if (sc0 and sc0[0] in GUARDS) or (isinstance(s.value.func, ast.Name) and s.value.func.id in GUARD_FUNCS):
             return tr_block(rest, env, k)
+        f0 = s.value.func
+        if isinstance(f0, ast.Attribute) and isinstance(f0.value, ast.Name) and f0.value.id == env.cls and f0.attr in GUARDS:
+            return tr_block(rest, env, k)          # Class.validate_data(self, …)
+        nc0 = nested_call(s.value)
+        if nc0:
+            body0 = strip_doc(find_function(env.trees[NESTED[nc0[0]]], NESTED[nc0[0]], nc0[1]).body)
+            if all(isinstance(b_, ast.Pass) for b_ in body0):
+                return tr_block(rest, env, k)      # a hook that does nothing in the nested class
+            raise Unsupported(f"call of {NESTED[nc0[0]]}.{nc0[1]} as a statement")
     if isinstance(s, ast.AnnAssign) and s.value is not None:
         s = ast.Assign(targets=[s.target], value=s.value)
     if isinstance(s, ast.Assign) and len(s.targets) == 1 and is_self_attr(s.targets[0]) in WRITE_ONLY:
@@ -583,9 +610,36 @@ def tr_block(stmts, env: Env, k: K) -> list[str]:
         a0 = is_self_attr(s.targets[0])
         v0 = env.bind_self(a0)
         extra = []
-        if a0 == "W":
-            extra = [f"let {env.bind_self('__hasW')} := true"]
+        if a0 in HAS_FLAGS:
+            extra = [f"let {env.bind_self(HAS_FLAGS[a0])} := true"]
         return cont([f"let {v0} := []"] + extra)
+    if isinstance(s, ast.Assign) and len(s.targets) == 1:
+        t0 = s.targets[0]
+        # self.<nested>.<field> = e      /      self.<nested>.<field>[idx] = e
+        tgt = t0.value if isinstance(t0, ast.Subscript) else t0
+        if isinstance(tgt, ast.Attribute) and is_self_attr(tgt.value) in NESTED and tgt.attr in NESTED_FIELD:
+            obj_attr = is_self_attr(tgt.value)
+            obj = SELF_FIELDS[obj_attr][0]
+            fld, fty = NESTED_FIELD[tgt.attr]
+            if isinstance(t0, ast.Subscript):
+                if isinstance(t0.slice, ast.Slice):
+                    raise Unsupported("slice store into a nested attribute")
+                rhs = f"({obj}.{fld}).set {arg(t0.slice, env)} {arg(s.value, env)}"
+            elif isinstance(s.value, ast.List) and not s.value.elts:
+                rhs = "[]"
+            else:
+                rhs = ex(s.value, env)
+            extra = ", hasW := true" if tgt.attr == "W" else ""
+            v0 = env.bind_self(obj_attr)
+            return cont([f"let {v0} := {{ {obj} with {fld} := {rhs}{extra} }}"])
+        # self.labels_[j:] = y
+        if isinstance(t0, ast.Subscript) and isinstance(t0.slice, ast.Slice) and t0.slice.lower is not None and t0.slice.upper is None \
+                and t0.slice.step is None and is_self_attr(t0.value) in SELF_FIELDS:
+            a0 = is_self_attr(t0.value)
+            old = ex(t0.value, env)
+            lo, rhs = arg(t0.slice.lower, env), ex(s.value, env)
+            v0 = env.bind_self(a0)
+            return cont([f"let {v0} := ({old}.take {lo}) ++ {rhs}"])
     if isinstance(s, ast.Assign) and len(s.targets) == 1 and isinstance(s.targets[0], ast.Name) and isinstance(s.value, ast.Lambda):
         env.lambdas[s.targets[0].id] = s.value
         return tr_block(rest, env, k)
@@ -683,7 +737,7 @@ def tr_block(stmts, env: Env, k: K) -> list[str]:
         if a is not None:
             rhs = ex(s.value, env)
             v = env.bind_self(a)
-            extra = [f"let {env.bind_self('__hasW')} := true"] if a == "W" else []
+            extra = [f"let {env.bind_self(HAS_FLAGS[a])} := true"] if a in HAS_FLAGS else []
             return cont([f"let {v} := {rhs}"] + extra)
         if isinstance(t, ast.Subscript):
             base = t.value
@@ -822,6 +876,13 @@ def tr_block(stmts, env: Env, k: K) -> list[str]:
                 i_ = e_.bind(s.target.elts[0].id, "Nat")
                 v_ = e_.bind(s.target.elts[1].id, ity[1])
                 return f"({v_}, {i_})"          # List.zipIdx yields (value, index)
+            if isinstance(s.target, ast.Tuple) and len(s.target.elts) == 2 and isinstance(s.target.elts[0], ast.Name) \
+                    and isinstance(s.target.elts[1], ast.Tuple) and all(isinstance(t_, ast.Name) for t_ in s.target.elts[1].elts) \
+                    and isinstance(ity, tuple) and ity[0] == "enum" and isinstance(ity[1], tuple) and ity[1][0] == "prod" \
+                    and len(ity[1][1]) == len(s.target.elts[1].elts):
+                i_ = e_.bind(s.target.elts[0].id, "Nat")
+                vs_ = [e_.bind(t_.id, ty_) for t_, ty_ in zip(s.target.elts[1].elts, ity[1][1])]
+                return f"(({', '.join(vs_)}), {i_})"
             raise Unsupported(f"for target {ast.unparse(s.target)}")
         d = env.copy()
         d.rec = []
@@ -835,7 +896,8 @@ def tr_block(stmts, env: Env, k: K) -> list[str]:
             raise Unsupported("for loop that changes nothing")
         tup = tuple_pat(carried)
         state_ty = lean_ty(("prod", [env.types[v] for v in carried])) if len(carried) > 1 else lean_ty(env.types[carried[0]])
-        elem_lean = lean_ty(("prod", [ity[1], "Nat"])) if ity[0] == "enum" else lean_ty(elem_ty(ity, "for"))
+        elem_lean = (f"({lean_ty(ity[1])}) × Nat" if isinstance(ity[1], tuple) and ity[1][0] == "prod" else
+                     lean_ty(("prod", [ity[1], "Nat"]))) if ity[0] == "enum" else lean_ty(elem_ty(ity, "for"))
         be = env.copy()
         be.in_loop = True
         pat = bind_target(be)
